@@ -324,7 +324,7 @@ Proof. exact AbortExample.abort_close_instance. Qed.
 ''')
 
 if "C10" in which:
-    put("C10", "Async.Writer Async.WriterTargets Async.WriterProofs", [
+    put("C10", "Async.Writer Async.WriterTargets Async.WriterProofs Parser.ReqWire Parser.ReqTargets Async.ConnTotal Async.ConnReads Async.ReadsWTargets Async.FrameTargets Async.FrameProofs", [
         ("---- several writers + the request's own reply flushing on one connection (Async/Writer.v) ----  MAIN: for EVERY poll "
          "order, number of writers, data, transport write script and client input: the log is a concatenation of COMPLETE lock "
          "tenures (one whole record of one writer, or one whole flush of parser replies) followed by the part of the current "
@@ -333,6 +333,15 @@ if "C10" in which:
         ("all writers done, none failed: the log is exactly a sequence of complete tenures carrying every writer's data", "writers_complete", "C10_writers_complete", ["writers_complete_stmt"]),
         ("a writer polled while someone else holds the lock changes nothing", "writer_waits", "C10_writer_waits", ["writer_waits_stmt"]),
         ("the request's flush polled while a writer holds the lock changes nothing", "request_waits_partial", "C10_request_waits", ["request_waits_partial_stmt"]),
+        ("---- the WHOLE connection (Async/Conn.v: Token::run with parse_request, handler scripts of all eleven opcodes - reads polled once and "
+         "abandoned included -, Request::close) ----  on a transport without write faults (any accept sizes, any Pending pattern), for EVERY client "
+         "(any bytes, segmentation, gating), buffer size and fuel: whatever the outcome (returned, waiting, out of fuel), the transport log is a "
+         "PREFIX of a byte string that decodes completely into records (framed: ConnWrites.parse_records - version 1, known type, lengths as "
+         "announced); and it decodes completely (whole) when the task returns, no shutdown was requested and no script abandons a read.  Management "
+         "replies, stream records and epilogues never interleave, not even in the F6 scenario (the writer waits, it does not write into the "
+         "unfinished reply)", "connection_framing", "C10_connection_framing", ["connection_framing_stmt"]),
+        ("non-vacuity: a run that returns with five records, the first a GetValuesResult", "exf_returns_whole", "C10_framing_example_whole"),
+        ("... and the F6 run: ODeadlock with the log [1; 10; 0] - three bytes of the reply header: framed, not whole", "exf6_framed_not_whole", "C10_framing_example_f6"),
     ])
 
 if "C07" in which:
